@@ -373,6 +373,59 @@ class FnRewriter:
             if k > n:
                 raise ExtractError("lost anchor: closure #%d in %s" % (k, self.name))
 
+    def r13_mapcollect(self):
+        """`(a..b)[.into_iter()].map(f).collect[::<..>]()` -> `vx_map_collect_<ty>(a, b, f)` (prelude fn with a verified body)"""
+        mc = self.opts.get("mapcollect", {})
+        if not mc:
+            return
+        toks = self.toks
+        bo, bc = self.body_range()
+        n = 0
+        for i in range(bo + 1, bc):
+            if toks[i].text != "(":
+                continue
+            c = self.match[i]
+            # a range at top level of the parens?
+            dd = None
+            k = i + 1
+            while k < c:
+                if toks[k].kind == "punct" and toks[k].text in ("(", "[", "{"):
+                    k = self.match[k] + 1
+                    continue
+                if toks[k].kind == "punct" and toks[k].text == "..":
+                    dd = k
+                    break
+                k += 1
+            if dd is None:
+                continue
+            q = c + 1
+            if toks[q].text == "." and toks[q + 1].text == "into_iter" and toks[q + 2].text == "(":
+                q = self.match[q + 2] + 1
+            if not (toks[q].text == "." and toks[q + 1].text == "map" and toks[q + 2].text == "("):
+                continue
+            mo = q + 2
+            mcl = self.match[mo]
+            if not (toks[mcl + 1].text == "." and toks[mcl + 2].text == "collect"):
+                continue
+            e = mcl + 3
+            if toks[e].text == "::":
+                e = self.src._skip_angle(e + 1)
+            if toks[e].text != "(":
+                continue
+            e = self.match[e]
+            n += 1
+            ty = mc.get(n)
+            if not ty:
+                continue
+            self.edit(toks[i].start, toks[i].end, "vx_map_collect_%s(" % ty, "R13")
+            self.edit(toks[dd].start, toks[dd].end, ", ", "R13")
+            self.edit(toks[c].start, toks[mo].end, ", ", "R13")
+            self.edit(toks[mcl].end, toks[e].end, "", "R13")
+            self.rule("R13")
+        for k in mc:
+            if k > n:
+                raise ExtractError("lost anchor: map/collect #%d in %s" % (k, self.name))
+
     def r8_signature(self):
         toks = self.toks
         it = self.item
@@ -542,6 +595,7 @@ class FnRewriter:
         self.r5_casts()
         self.r12_opassign()
         self.r6_closures()
+        self.r13_mapcollect()
         self.subst()
         self.replace_calls()
         self.drop_attrs_in_body()
@@ -833,7 +887,7 @@ class Assembler:
                 self.do_trait(parts[1:], extra)
             elif cmd == "fn":
                 sections = []
-                opts = {"assert_modes": {}, "floatcasts": set(), "opassign": [], "closures": {}, "replace": []}
+                opts = {"assert_modes": {}, "floatcasts": set(), "opassign": [], "closures": {}, "replace": [], "mapcollect": {}}
                 j = i + 1
                 cur = None
                 while True:
@@ -872,6 +926,9 @@ class Assembler:
                                 d["name"] = p2[3]
                             else:
                                 d["contract"] = p2[3]
+                            cur = None
+                        elif c2 == "mapcollect":
+                            opts["mapcollect"][int(p2[1])] = p2[2]
                             cur = None
                         elif c2 == "replace-call":
                             opts["replace"].append((p2[1], p2[3]))
